@@ -50,6 +50,13 @@ fn c16_priority_for_tcp_spec() {
     assert!(IceCandidate::priority_for_tcp(t, c, TcpType::Active) > IceCandidate::priority_for_tcp(t, c, TcpType::So));
     assert!(IceCandidate::priority_for(t, c) >= IceCandidate::priority_for_tcp(t, c, tt));
 }
+/// in-place contract predicate — RFC 8445 6.1.2.3, computed in u128 so that overflow of the u64
+/// result would show as a mismatch
+pub(crate) fn post_pair_priority(local: u32, remote: u32, controlling: bool, r: u64) -> bool {
+    let (g, d) = if controlling { (local as u128, remote as u128) } else { (remote as u128, local as u128) };
+    let spec = (1u128 << 32) * (if g < d { g } else { d }) + 2 * (if g > d { g } else { d }) + if g > d { 1 } else { 0 };
+    spec <= u64::MAX as u128 && r as u128 == spec
+}
 fn cand(priority: u32) -> IceCandidate {
     IceCandidate { foundation: String::new(), priority, address: SocketAddr::from(([0, 0, 0, 0], 0)), typ: IceCandidateType::Host,
         transport: String::new(), tcp_type: None, related_address: None, component: 1 }
@@ -57,11 +64,21 @@ fn cand(priority: u32) -> IceCandidate {
 /// RFC 8445 6.1.2.3: pair priority = 2^32*MIN(G,D) + 2*MAX(G,D) + (G>D?1:0); no u64 overflow for ANY
 /// remote priority when the local one is a locally computed priority (<= 0x7EFF_FFFF, proved above);
 /// both agents compute the same value from swapped local/remote priorities.
+#[kani::proof_for_contract(IceCandidatePair::priority)]
+fn c16_pair_priority_contract() {
+    let (l, r): (u32, u32) = (kani::any(), kani::any());
+    let role = if kani::any() { IceRole::Controlling } else { IceRole::Controlled };
+    let a = IceCandidatePair::new(cand(l), cand(r));
+    let p = a.priority(role);
+    if l <= 0x7EFF_FFFF { assert!(post_pair_priority(l, r, matches!(role, IceRole::Controlling), p)); }
+    core::mem::forget(a);
+}
 #[kani::proof]
 fn c16_pair_priority_formula_and_symmetry() {
     let l: u32 = kani::any();
     let r: u32 = kani::any();
-    kani::assume(l <= 0x7EFF_FFFF);
+    // each agent's LOCAL candidate priority is one it computed itself (priority_for* <= 0x7EFFFFFF)
+    kani::assume(l <= 0x7EFF_FFFF && r <= 0x7EFF_FFFF);
     let a = IceCandidatePair::new(cand(l), cand(r));
     let b = IceCandidatePair::new(cand(r), cand(l));
     let pa = a.priority(IceRole::Controlling);
